@@ -1,14 +1,30 @@
 /-
-C20 (regenerated function bodies, string mode) — zodiac sign: the regenerated `GetXingZuo` equals the model's for all month / day integers.
+C20 (regenerated function bodies, string mode) — zodiac sign and civil festivals: the regenerated `GetXingZuo` equals the model's for all month / day integers; the regenerated `Solar.GetFestivals` is the model's fixed-date + k-th weekday + last-weekday list.
 `Gen/FnS.lean` is regenerated from /repo's source on every run by gotrans/fntrans.go in string mode (every function of the module that
 lies entirely inside the subset: no atoms, nothing dropped); the theorems indexed here are re-checked against it. A function that an
 edit pushes out of the subset disappears from `Gen/FnS.lean` and its theorem no longer elaborates.
 -/
 import Proofs.FnSXingZuo
+import Proofs.FnSSolarFest
 namespace Props.FnSC20
+
+set_option maxRecDepth 100000
+def listing (fn : String) : List (String × String × String) × List String × List String :=
+  ((Gen.FnS.atoms.filter (fun a => a.1 == fn)).map (fun a => a.2),
+   (Gen.FnS.dropped.filter (fun a => a.1 == fn)).map (fun a => a.2),
+   (Gen.FnS.notes.filter (fun a => a.1 == fn)).map (fun a => a.2))
+
+theorem pin_calendar_Solar_GetFestivals : (Gen.FnS.translated.contains "calendar.Solar.GetFestivals" && listing "calendar.Solar.GetFestivals" ==
+    (([("a1", "Int", "solar.GetWeek()")] : List (String × String × String)),
+     ([] : List String),
+     (["int(math.Ceil(float64(E)/7)) translated as the exact integer ceiling (valid for |E| < 2^50)"] : List String))) = true := by decide +kernel
 
 def obligations : List Lean.Name := [
   ``FnSEq.solarGetXingZuo_eq,
-  ``FnSEq.solarGetXingzuo_eq ]
+  ``FnSEq.solarGetXingzuo_eq,
+  ``FnSEq.solarGetFestivals_shape,
+  ``FnSEq.solarGetFestivals_eq,
+  ``FnSEq.solarGetFestivals_eq',
+  ``FnSEq.solarGetFestivals_panic ]
 
 end Props.FnSC20
